@@ -897,6 +897,10 @@ def install_faults(w, scn):
                         world.log.append({'ev': 'lose', 'pipe': pipe.label, 't': world.now})
                         pipe.lose_next += 1
 
+                        if (after := spec.get('after_ms')) is not None:
+                            world.horizon_ms = world.now + after
+                            world.quiet_ms   = None
+
                     acts.append(Action('fault', pipe.dst.owner, do, label=f'lose:{pipe.label}'))
 
         return acts
